@@ -540,7 +540,8 @@ def merge_rule(ctx, fm):
     if ent:
         rl = fm.enclosing(ent[0], ("for", "while", "loop"))
         inner_clo = fm.enclosing(ent[0], ("closure",))
-        branchy = [x for x in walk(rl["body"]) if x.get("k") in ("if", "match", "continue", "break", "ret")] if rl else []
+        branchy = [x for x in walk(rl["body"]) if x.get("k") in ("if", "match", "continue", "break", "ret")
+                   and not is_readline_control(x) and not any(is_readline_control(a_) for a_ in fm.ancestors(x))] if rl else []
         okl = rl is not None and not branchy and any(a is inner_clo for a in fm.ancestors(rl))
         ctx.check("C07.M", "merge:every_line", okl, "every line of every chunk file is accumulated unconditionally",
                   "the merge reader skips or filters lines (`%s` in the reading loop): occurrences would be lost"
@@ -604,7 +605,8 @@ def delete_rule(ctx, fm):
                 if any(x is node for x in walk(s)):
                     return i
             return None
-        rd = [n for n in walk(clo) if n.get("k") == "for"]
+        rd = [n for n in walk(clo) if n.get("k") in ("for", "while", "loop")
+              and any(is_scc(x) and cname(x).endswith("::entry") for x in walk(n))]      # the loop that accumulates the lines
         okp = bool(rd) and idx_of(dels[0]) is not None and idx_of(rd[0]) is not None and idx_of(dels[0]) > idx_of(rd[0])
         ctx.check("C07.D", "merge:delete_after_read", okp, "deletion follows the read loop",
                   "the temp file is deleted before it has been read", line_of(dels[0]))
